@@ -55,6 +55,43 @@ def _job(args):
     return st
 
 
+def _crashed(job, why):
+    pid, hname, case, tier, seed = job
+    return {"harness": hname, "case": str(case), "errors": [f"job crashed: {why}"],
+            "violations": [], "inconclusive": [], "paths": 0, "aborted": 0, "obligations": 0,
+            "unsat": 0, "sat_replayed": 0, "sat_spurious": 0, "unknown": 0, "solver_s": 0.0,
+            "queries": 0, "bound_hit": False, "vacuity_sat": 0, "validated_points": 0,
+            "samples": [], "assumptions": [], "distinct": [], "wall_s": 0.0, "lifted_constants": 0}
+
+
+def _run_parallel(jobs, nproc):
+    """One process per job slot; a worker that dies (a crash inside the solver library) breaks the
+    executor instead of hanging the check: the jobs without a result are re-run one by one in fresh
+    single-worker executors, and a job that dies again is reported as a harness error (exit 3)."""
+    from concurrent.futures import ProcessPoolExecutor
+    from concurrent.futures.process import BrokenProcessPool
+    ctx = mp.get_context("fork")
+    results = [None] * len(jobs)
+    try:
+        with ProcessPoolExecutor(max_workers=nproc, mp_context=ctx) as ex:
+            futs = {i: ex.submit(_job, j) for i, j in enumerate(jobs)}
+            for i, f in futs.items():
+                try:
+                    results[i] = f.result()
+                except BrokenProcessPool:
+                    pass
+    except BrokenProcessPool:
+        pass
+    for i, j in enumerate(jobs):
+        if results[i] is None:
+            try:
+                with ProcessPoolExecutor(max_workers=1, mp_context=ctx) as ex:
+                    results[i] = ex.submit(_job, j).result()
+            except BrokenProcessPool:
+                results[i] = _crashed(j, "worker process died (twice) while running this job")
+    return results
+
+
 def _src_hash(fn):
     try:
         src = inspect.getsource(fn)
@@ -134,9 +171,7 @@ def main(argv=None):
             jobs.append((pid, h.name, case, tier, seed))
     # longest first is unknown; keep order
     if a.jobs > 1 and len(jobs) > 1:
-        ctx = mp.get_context("fork")
-        with ctx.Pool(min(a.jobs, len(jobs))) as pool:
-            stats = pool.map(_job, jobs, chunksize=1)
+        stats = _run_parallel(jobs, min(a.jobs, len(jobs)))
     else:
         stats = [_job(j) for j in jobs]
 
